@@ -11,6 +11,7 @@ import (
 	"os"
 	"path/filepath"
 	"sort"
+	"strconv"
 	"strings"
 )
 
@@ -161,6 +162,7 @@ func runProp(p *Prop, tier string, seed int64, outDir string, corpusDir string) 
 	}
 	defer sxf.Close()
 	var sxIDs []int
+	unclassified := 0
 	sxBytes := 0
 	const sxBudget = 400 << 20
 	for i, c := range cases {
@@ -196,12 +198,20 @@ func runProp(p *Prop, tier string, seed int64, outDir string, corpusDir string) 
 				fin = p.Classify(c, msg)
 			}
 			cc := c
-			if p.Shrink != nil && fin == "" && pmsg == "" {
+			if fin == "" {
+				unclassified++
+			}
+			// only the first failing inputs are minimised (the driver keeps three replays)
+			if p.Shrink != nil && fin == "" && pmsg == "" && unclassified <= 3 && os.Getenv("VERIF_NO_SHRINK") == "" {
 				cc = shrinkCase(p, c, msg)
 				_, msg = cc.Oracle()
 			}
 			writeReplay(f, p.ID, "failing-input", cc, msg, "")
 			sum.OracleFails = append(sum.OracleFails, oracleFail{CaseID: i, Msg: msg, Finding: fin, File: f})
+			// regression runs over seeded changes only ask whether anything fails (tools/seedregress.sh)
+			if n, _ := strconv.Atoi(os.Getenv("VERIF_STOP_AFTER_FAILS")); n > 0 && unclassified >= n {
+				break
+			}
 		}
 		if pmsg != "" {
 			continue
